@@ -70,6 +70,19 @@ fn cases(thorough: bool) -> Vec<Case> {
                     });
                 }
             }
+            // job control on: pipelines run inside one more subshell
+            if [0usize, 513, 1025, 2049].contains(&n) && t <= 1 {
+                out.push(Case {
+                    script: format!("set -m; {g} | hsink 300"),
+                    expected: m(vec![("M.1.2", hs(&data))]),
+                    size: n,
+                });
+                out.push(Case {
+                    script: format!("set -m; {g} | cat 700 | hsink"),
+                    expected: m(vec![("M.1.3", hs(&data))]),
+                    size: n,
+                });
+            }
             let val = strip_nl(data.clone());
             // a value that is empty expands to one empty field inside double quotes
             out.push(Case {
